@@ -1,11 +1,12 @@
 import Gv.Oracle.Seq
+import Gv.Oracle.Fmt
 /-!
 oracle: reads lines `<id> \t <impl result> \t <op> \t <arg>...` and prints
 `<id> \t <model result> \t <verdict>`.
 -/
 open Gv Gv.Oracle
 
-def handlers : List Handler := [SeqOps.handle]
+def handlers : List Handler := [SeqOps.handle, FmtOps.handle]
 
 def answer (op : String) (args : List String) (impl : String) : Ans :=
   match handlers.findSome? (fun h => h op args impl) with
